@@ -145,16 +145,18 @@ static void child_run(int T, bool pad, const bytes &input, uint64_t sseed, int s
   flush_result(status);
 }
 
-static long g_sched = 0, g_intervals = 0;
+static long g_sched = 0, g_intervals = 0, g_failed = 0;
 static void run_schedule(int T, bool pad, const bytes &input, uint64_t sseed, int strategy) {
+  if (g_failed >= 6) return;     // enough concrete failing schedules: stop exploring
   g_sched++;
   std::string id = "T=" + S(T) + " B=" + S(BSZ) + " pad=" + S(pad) + " input=" + hex(input) + " schedule-seed=" + S((long)sseed) + " strategy=" + S(strategy);
   gReq = id;
   trace_case("sched", id);
+  alarm(0);
   int p[2]; if (pipe(p) != 0) abort();
   fflush(g_proto);
   pid_t pid = fork();
-  if (pid == 0) { close(p[0]); alarm(20); child_run(T, pad, input, sseed, strategy, p[1]); _exit(0); }
+  if (pid == 0) { close(p[0]); signal(SIGALRM, SIG_DFL); alarm(4); child_run(T, pad, input, sseed, strategy, p[1]); _exit(0); }
   close(p[1]);
   std::string res; char buf[65536]; ssize_t n; while ((n = read(p[0], buf, sizeof buf)) > 0) res.append(buf, n);
   close(p[0]); int st; waitpid(pid, &st, 0);
@@ -167,12 +169,14 @@ static void run_schedule(int T, bool pad, const bytes &input, uint64_t sseed, in
     else if (ln.compare(0, 2, "N\t") == 0) sscanf(ln.c_str() + 2, "%ld\t%ld", &nint, &nexp);
     else if (ln.compare(0, 2, "O\t") == 0) outhex = ln.substr(2); }
   g_intervals += nint;
+  if (status.compare(0, 4, "DONE") != 0 || !WIFEXITED(st)) g_failed++;
   if (status.compare(0, 8, "DEADLOCK") == 0) { emitA("sched", "C04", "deadlock: no runnable thread while some thread has not returned (" + status + ") " + id); }
   else if (WIFSIGNALED(st) && WTERMSIG(st) == SIGALRM) { emitA("sched", "C04", "the pipeline did not finish (endless loop) " + id); return; }
   else if (!WIFEXITED(st) || WEXITSTATUS(st) != 0 || status.compare(0, 4, "DONE") != 0) { emitA("sched", "C11", "the pipeline crashed under the scheduler (wait status " + S(st) + ") " + id); return; }
   if (status.compare(0, 4, "DONE") == 0) {
     if (status != "DONE live=0") emitA("sched", "C15", "live buffer counter not back to 0 after the run: " + status + " " + id);
     bytes want = reference(T, pad, input);
+    if (hex(want) != outhex) g_failed++;
     if (hex(want) != outhex) emitA("sched", "C03", "output differs from the sequential reference under this schedule: got " + outhex + " want " + hex(want) + " " + id);
   }
   if (!pipeReq.empty()) {
@@ -191,7 +195,7 @@ int main(int argc, char **argv) {
   int per = tier_thorough() ? 40 : 5;
   for (int T : {1, 2, 3, 4}) for (size_t n : lens) for (int pad = 0; pad < 2; pad++) {
     if (!tier_thorough() && T == 4 && n % 2) continue;
-    bytes in = rng.buf(n);
+    bytes in = rng.padlike(n);
     if (!pad) { in.resize(n / 16 * 16 + (rng.below(4) == 0 ? rng.below(16) : 0)); if (in.size() >= 16 && rng.below(3)) in[in.size() / 16 * 16 - 1] = (unsigned char)(1 + rng.below(16)); }
     for (int k = 0; k < per; k++) run_schedule(T, pad, in, rng.next() % 1000000007ull, k % 2);
   }
